@@ -12,7 +12,7 @@ from .dep import Analysis
 
 VERIF = os.path.dirname(os.path.dirname(os.path.abspath(__file__)))
 REPO = os.environ.get("RSS_REPO", "/repo")
-CACHE = os.path.join(VERIF, ".cache")
+CACHE = os.environ.get("RSS_CACHE") or os.path.join(VERIF, ".cache")
 CONTROLS = os.path.join(VERIF, "fixtures", "controls")
 
 
@@ -49,7 +49,7 @@ def ensure_facts(root, mode="lib"):
     done = os.path.join(d, "DONE")
     if os.path.exists(done):
         return d, True
-    lock = open(os.path.join(CACHE, "lock"), "w")
+    lock = open(os.path.join(CACHE, hx + ".lock"), "w")
     fcntl.flock(lock, fcntl.LOCK_EX)
     try:
         if os.path.exists(done):
@@ -62,11 +62,13 @@ def ensure_facts(root, mode="lib"):
             raise RuntimeError("fact extraction failed for %s (the tree does not compile?)" % root)
         with open(done, "w") as fh:
             fh.write(time.strftime("%Y-%m-%dT%H:%M:%S"))
-        # keep the cache small: drop all but the 6 newest entries
+        if os.environ.get("RSS_CACHE"):
+            return d, False
+        # keep the cache small: drop all but the newest entries
         ents = [os.path.join(CACHE, e) for e in os.listdir(CACHE)
                 if os.path.isdir(os.path.join(CACHE, e))]
         ents.sort(key=lambda p: os.path.getmtime(p), reverse=True)
-        for old in ents[6:]:
+        for old in ents[8:]:
             subprocess.run(["rm", "-rf", old])
         return d, False
     finally:
